@@ -28,7 +28,8 @@ func newBaseStreamDataHandle() *baseStreamDataHandle {
 }
 
 func (s *baseStreamDataHandle) HasStreamData(data []byte) bool {
-	return bytes.Contains(data, []byte{0x30, 0x31, 0x63, 0x64}) // 808543076 = 0x30 0x31 0x63 0x64
+	// 数据块以帧头标识开始 控制帧内容里带有这4个字节时不能当成数据块
+	return bytes.HasPrefix(data, []byte{0x30, 0x31, 0x63, 0x64}) // 808543076 = 0x30 0x31 0x63 0x64
 }
 
 func (s *baseStreamDataHandle) HasMinHeadLen(data []byte) bool {
